@@ -266,6 +266,19 @@ class ImplRuleSession:
                     out = [0, key(op), rec]
                 except Exception as e:  # pylint: disable=broad-except
                     out = [exn(e), [], rec]
+            elif t == 10:
+                # the k-th scorer object is used on ANOTHER dispatcher of the same instance in between (two runs
+                # stepped in lockstep, a scorer shared by two solvers); whatever it does there, this dispatcher
+                # and its observers are what they were; the scorer fetches its observers again at its next call
+                # here (model: scorer_forget). Answered with a snapshot
+                from job_shop_lib.dispatching import Dispatcher
+
+                other = Dispatcher(self.instance)
+                ready = other.raw_ready_operations()
+                if ready and ev[2]:
+                    other.dispatch(ready[0], ready[0].machines[0])
+                self.store[self.scorers[ev[1]]](other)
+                out = self.snapshot()
             else:
                 out = self.snapshot()
         except Exception as e:  # pylint: disable=broad-except
@@ -311,6 +324,8 @@ def model_events(case, obs):
             out.append([5, ev[1], sel])
         elif t == 6:
             out.append([6, idx[ev[1]], sel])
+        elif t == 10:
+            out.append([10, idx[ev[1]]])
         elif t in (7, 8):
             codes = ev[1] if t == 7 else [ev[1]]
             rec = o[2] if len(o) > 2 else []
@@ -432,6 +447,8 @@ class C04(Check):
                     events.append([8, self.gen_sfuns(rng, scorers)[0], rng.randrange(10 ** 6)])
             if rng.random() < 0.15:
                 events.append([9])
+            if n_scorers and rng.random() < 0.06:
+                events.append([10, rng.randrange(n_scorers), rng.randrange(2)])
             if rng.random() < 0.03 and done > 0:
                 events.append([1])
                 nxt = [0] * len(spec)
@@ -490,7 +507,7 @@ class C04(Check):
                 for ev in c["events"]:
                     self.note("ev_" + ["dispatch", "reset", "new_scorer", "user_duration_observer", "scorer_call",
                                        "builtin_rule", "observer_rule", "tie_breaker_rule", "score_based_rule",
-                                       "snapshot"][ev[0]])
+                                       "snapshot", "scorer_used_on_another_dispatcher"][ev[0]])
         return cases
 
     # ---- implementation -------------------------------------------------------
@@ -650,7 +667,7 @@ class C04(Check):
                 if o != m:
                     fails.append(Failure("tie", "scorer-vector", f"{where}: MostWorkRemainingScorer()(dispatcher) differs",
                                          expected=m, observed=o))
-            elif t == 9:
+            elif t in (9, 10):
                 m = [m[0], m[1], [[2] if x[0] == 2 else x for x in m[2]], m[3]]   # scorer internals are private
                 if o != m:
                     fails.append(Failure("tie", "snapshot", f"{where}: available / subscribers / job features / rows differ",
